@@ -198,6 +198,8 @@ def repo_source_hash():
 def depth_factor():
     """1 on the tree the framework was last calibrated on (tools/pinned.json); 4 when the library sources differ from it:
     a changed tree is explored more deeply by the same generators (more cases, same streams, same oracles)."""
+    if os.environ.get("VERIF_FORCE_DEPTH"):          # calibration runs on the unchanged tree at the depth a changed tree gets
+        return int(os.environ["VERIF_FORCE_DEPTH"])
     try:
         pinned = json.load(open(os.path.join(VERIF, "tools", "pinned.json")))["repo_source_hash"]
     except Exception:
